@@ -4,7 +4,7 @@ import tempfile
 from string import Template
 
 import numpy as np
-from numpy.lib.recfunctions import structured_to_unstructured, unstructured_to_structured
+from numpy.lib.recfunctions import unstructured_to_structured
 
 from .. import grouping, resources, util, visual
 from ..constants import log
@@ -707,7 +707,11 @@ def _elements_to_kwargs(elements, fix_texture, image, prefer_color=None):
 
         from ..path.exchange.misc import edges_to_path
 
-        edges = structured_to_unstructured(elements["edge"]["data"])
+        # binary files give a structured array, ascii files a dict of columns
+        edge_data = elements["edge"]["data"]
+        edges = np.column_stack([edge_data["vertex1"], edge_data["vertex2"]]).astype(
+            np.int64
+        )
         kwargs.update(edges_to_path(edges, kwargs["vertices"]))
 
     return kwargs
